@@ -63,3 +63,19 @@ package cluster
 //@   loop 1 invariant forall i int :: 0 <= i && i < nMembers() ==> nodes[i] == mlMember(i)
 //@   loop 1 invariant forall j int :: 0 <= j && j <= rangeindex ==> mlMember(j).Name != localNode().Name
 //@   noeffect Memberlist).Members Node).String Memberlist).LocalNode
+
+// ---- C19 / C09 / C10: the full-state exchange carries one part per registered state - each under its key, with
+// the bytes that state's MarshalBinary returned - or nothing at all when a state cannot be encoded.
+//@ func (*delegate).LocalState
+//@   props C19 C09 C10
+//@   nosafe
+//@   requires d != nil && d.states != nil
+//@   at call proto.Marshal assert [one-part-per-state] count("State).MarshalBinary") == len(d.states) && len(all.Parts) == len(d.states)
+//@   at call proto.Marshal assert [no-encoding-error-so-far] called("State).MarshalBinary") ==> ret1("State).MarshalBinary") == nil
+//@   at call proto.Marshal assert [parts-are-the-states] forall i int :: 0 <= i && i < len(all.Parts) ==> all.Parts[i] != nil && (all.Parts[i].Key in d.states)
+//@   ensures [encoding-error-sends-nothing] called("State).MarshalBinary") && ret1("State).MarshalBinary") != nil ==> result == nil && !called("proto.Marshal")
+//@   loop 1 invariant fresh(all) && (all.Parts == nil || fresh(all.Parts)) && count("State).MarshalBinary") == len(visited) && len(all.Parts) == len(visited) && !called("proto.Marshal")
+//@   loop 1 invariant called("State).MarshalBinary") ==> ret1("State).MarshalBinary") == nil
+//@   loop 1 invariant d.states == old(d.states) && (forall k string :: (k in visited) ==> (k in d.states)) && dom(d.states) == old(dom(d.states))
+//@   loop 1 invariant forall i int :: 0 <= i && i < len(all.Parts) ==> all.Parts[i] != nil && fresh(all.Parts[i]) && (all.Parts[i].Key in visited)
+//@   noeffect State).MarshalBinary
